@@ -5,13 +5,15 @@
 //! by try_seek (32/64-bit flavours, nums.place = 0) or by set_block_pos on a core + from_core +
 //! consuming nums.o bytes (nums.place = 1; the only route for 128-bit flavours and BelT).  Then a
 //! short history over the CHECKED API only:
-//!   tryapply(n, via=form) | seek(p, ty) | pos(ty) | rem | clone
+//!   tryapply(n, via=form) | seek(p, ty) | pos(ty) | rem | clone | jump(k, dir)
 //! Oracle: a request succeeds iff it fits; one ending exactly at the limit succeeds and leaves
 //! remaining_blocks = Some(0); on failure the caller's buffers are byte-identical, the reported
 //! position is unchanged and the following bytes (twin = clone taken before the call) are
 //! unchanged; remaining_blocks, when Some, equals L - blocks generated; try_seek(p) succeeds iff
 //! p <= L*bs.  Seam invariant: over the life of the instance no cipher input value serves two
-//! different block positions.
+//! different block positions.  jump = a second core over the same key and IV set 2^k blocks away
+//! (modulo the counter width) replaces the instance; the seam invariant keeps running across it,
+//! so reuse between far-apart positions of the same keystream is visible too.
 //! The unchecked StreamCipherCore block methods are placement tools only (documented as not
 //! checking the limit).
 
@@ -33,7 +35,7 @@ pub fn def() -> CheckDef {
         runs_quick: 800_000,
         runs_thorough: 25_000_000,
         rule: "keystream-exhaustion fault: every one of the seven limited stream ciphers (six CTR flavours, BeltCtr) is placed d in 0..6 blocks before its limit at every kind of in-block offset, by seek or by core positioning, and driven across the limit with try_apply_keystream (4 checked forms; lengths 0..(d+2) blocks incl. exactly-at-limit and one-byte-too-long), try_seek around the limit, try_current_pos, remaining_blocks, clone. evaluations = scenarios; fault = a request that does not fit. distinct = distinct (type, block size, cipher, policy, d, offset class, op/outcome sequence); non-trivial = >= 1 request that crosses or touches the limit",
-        required_probes: &["request_ends_exactly_at_limit", "request_one_byte_too_long", "failure_with_half_used_block", "limit_128bit", "limit_belt", "seek_exactly_to_limit", "seek_beyond_limit_rejected", "remaining_some_checked", "placed_by_seek", "placed_by_core", "placed_mid_stream"],
+        required_probes: &["request_ends_exactly_at_limit", "request_one_byte_too_long", "failure_with_half_used_block", "limit_128bit", "limit_belt", "seek_exactly_to_limit", "seek_beyond_limit_rejected", "remaining_some_checked", "placed_by_seek", "placed_by_core", "placed_mid_stream", "jumped_same_keystream"],
         r#gen,
         exec,
         components: "real code: ctr and belt-ctr crates (remaining_blocks, counters) and cipher's StreamCipherCoreWrapper (check_remaining, try_seek); stub: block cipher in most runs, real ciphers in the rest; the twin for 'following bytes unchanged' is a clone of the real object taken before the failing call",
@@ -107,6 +109,19 @@ fn r#gen(rng: &mut Rng, thorough: bool) -> Scn {
             2 => s.ops.push(Op::new("pos").ty(rng.below(5) as u8)),
             3 => s.ops.push(Op::new("rem")),
             4 if mode != "belt" => s.ops.push(Op::new("clone")),
+            5 => {
+                // jump: the same keystream (same key, same IV) re-entered 2^k blocks away, modulo
+                // the counter width; the seam invariant keeps running across the jump
+                let k = match rng.below(6) {
+                    0 => 31,
+                    1 => 32,
+                    2 => 63,
+                    3 | 4 => 64,
+                    _ => 1 + rng.below(126),
+                };
+                s.ops.push(Op::new("jump").n(k).ty(rng.below(2) as u8));
+                s.ops.push(Op::new("tryapply").n(1 + rng.below(3 * bs)).via(rng.below(4) as u8));
+            }
             _ => {
                 let n = match rng.below(8) {
                     0 => rem_bytes,
@@ -343,7 +358,7 @@ fn exec(scn: &Scn, ctx: &mut Ctx) -> Verdict {
                 match (w.pos(ty), p) {
                     (Ok(v), Some(p)) if v == p => {}
                     (Ok(v), p) => violation!("position", "op {}: try_current_pos::<{}>() = {} but the position is block {} offset {} ({:?})", i, crate::sobj::SEEK_TYPES[ty as usize], v, t.nb, t.off, p),
-                    (Err(()), Some(p)) if p + bsu <= max => violation!("position", "op {}: try_current_pos::<{}>() failed although position {} fits", i, crate::sobj::SEEK_TYPES[ty as usize], p),
+                    (Err(()), Some(p)) if p.checked_add(bsu).map(|e| e <= max).unwrap_or(false) => violation!("position", "op {}: try_current_pos::<{}>() failed although position {} fits", i, crate::sobj::SEEK_TYPES[ty as usize], p),
                     (Err(()), _) => {}
                 }
             }
@@ -356,6 +371,32 @@ fn exec(scn: &Scn, ctx: &mut Ctx) -> Verdict {
                     }
                 } else if l - t.generated() <= u32::MAX as u128 {
                     violation!("remaining", "op {}: remaining_blocks() = None although only {} blocks remain", i, l - t.generated());
+                }
+            }
+            "jump" => {
+                // a second core over the same key and IV, positioned 2^k blocks away (modulo the
+                // counter width): it continues the SAME keystream, so no cipher input it produces
+                // may have served another block position of this history
+                let wbits = flavor_of(&scn.mode).map(|f| f.bits as u32).unwrap_or(128);
+                let k = (op.n as u32) % wbits;
+                let mask = if wbits == 128 { u128::MAX } else { (1u128 << wbits) - 1 };
+                let step = 1u128 << k;
+                let target = if op.ty % 2 == 0 { t.generated().wrapping_add(step) } else { t.generated().wrapping_sub(step) } & mask;
+                if target < l {
+                    let mut c = match make_core(&scn.mode, bs, scn.cipher, &scn.key, &scn.iv, 0, 0) {
+                        Ok(c) => c,
+                        Err(_) => invalid!("unsupported"),
+                    };
+                    if c.set_pos(target) != Some(true) {
+                        invalid!("set_block_pos");
+                    }
+                    w = c.into_stream();
+                    t.nb = target;
+                    t.off = 0;
+                    ctx.probe("jumped_same_keystream");
+                    ctx.probe_if(target > (1u128 << 127) && wbits == 128, "jumped_across_zero_128bit");
+                    ctx.sig.u((k as u64) << 8 | (op.ty % 2) as u64);
+                    env_clear_trace();
                 }
             }
             "clone" => {
